@@ -1,5 +1,5 @@
 (** Dispatch/Sched_Proofs_Base.v — basic facts about the micro-step model: function updates, the thread table,
-    liveness, and the step-inversion tactic used by all invariant proofs. *)
+    the step-inversion tactic used by all invariant proofs, and the frame property of a step. *)
 From Coq Require Import List Arith Bool Lia.
 From TV Require Import Dispatch.Sched_Model.
 Import ListNotations.
@@ -40,13 +40,17 @@ Proof.
     apply any_thread_true in E. destruct E as [t [Hlt Hp]]. rewrite H in Hp; auto.
 Qed.
 
-(** The step-inversion tactic: one goal per leaf branch of [step] (including the branches of [start_op] and
-    [after_load]); the hypotheses record the program point and every test that selected the branch. *)
+Lemma ltb_lt' : forall a b, (a <? b) = true -> a < b.
+Proof. intros. apply Nat.ltb_lt. auto. Qed.
+
+(** The step-inversion tactic: one goal per leaf branch of [step] (including the branches of [start_op],
+    [after_load] and [chk]); the hypotheses record the program point ([Hpc]), that the thread exists ([Hlt]) and
+    every test that selected the branch. *)
 Ltac step_inv H :=
   unfold step in H;
   match type of H with context[negb (?t <? ?n)] => destruct (t <? n) eqn:Hlt; cbn [negb] in H; [|discriminate H] end;
   match type of H with context[th_pc ?th] => destruct (th_pc th) eqn:Hpc end;
-  unfold start_op, after_load in H;
+  unfold start_op, after_load, chk in H;
   repeat match type of H with
          | context[match ?x with _ => _ end] => destruct x eqn:?
          end;
@@ -56,7 +60,7 @@ Definition pcof (s : state) (t : tid) : pc := th_pc (st_thr s t).
 
 (** normal form of the successor state: setters and [upd] only *)
 Ltac norm :=
-  unfold emit_end, judge, judge_with, goto, upd_thr, emit_log, pcof in *;
+  unfold emit_end, judge, judge_with, goto, upd_thr, emit_log in *;
   cbn [st_n st_thr st_readers st_writer st_disps st_list st_cache st_reg st_max st_ginit st_gdisp st_created st_handle
        st_cell st_cellw st_olds st_cleaning st_epoch st_log
        set_thr set_readers set_writer set_disps set_list set_cache set_reg set_max set_ginit set_gdisp set_created
@@ -67,13 +71,39 @@ Ltac norm :=
 (** ... and the moving thread's own entry looked up *)
 Ltac self := repeat (progress (rewrite ?upd_same in *; norm)).
 
-Lemma chk_eq : forall t cs s, chk t cs s = s \/ chk t cs s = emit_log (EvCorrupt t cs) s.
-Proof. intros. unfold chk. destruct (mem cs (st_list s)); auto. Qed.
-
 (** case split on whether thread [t'] is the one that moved *)
 Ltac thr t' t :=
   destruct (Nat.eq_dec t' t) as [->|];
   [ repeat rewrite upd_same in * | repeat (rewrite upd_other in * by assumption) ].
 
-Lemma ltb_lt' : forall a b, (a <? b) = true -> a < b.
-Proof. intros. apply Nat.ltb_lt. auto. Qed.
+(** every step leaves the thread count and the other threads alone *)
+Lemma step_frame : forall W s t s', step W s t = Some s' ->
+  t < st_n s /\ st_n s' = st_n s /\ (forall t', t' <> t -> st_thr s' t' = st_thr s t').
+Proof.
+  intros W s t s' H. step_inv H; apply ltb_lt' in Hlt.
+  all: norm; split; [assumption|split; [reflexivity|]]; intros t' Hne; repeat rewrite upd_other by assumption; reflexivity.
+Qed.
+
+Lemma step_pc_other : forall W s t s' t', step W s t = Some s' -> t' <> t -> pcof s' t' = pcof s t'.
+Proof. intros. unfold pcof. destruct (step_frame _ _ _ _ H) as [_ [_ E]]. rewrite E; auto. Qed.
+
+(** the log only grows *)
+Lemma step_log : forall W s t s', step W s t = Some s' -> exists l, st_log s' = l ++ st_log s.
+Proof.
+  intros W s t s' H. step_inv H; norm.
+  all: first [ exists []; reflexivity | eexists [_]; reflexivity | eexists [_; _]; reflexivity ].
+Qed.
+Lemma step_log_mono : forall W s t s' e, step W s t = Some s' -> In e (st_log s) -> In e (st_log s').
+Proof.
+  intros. destruct (step_log _ _ _ _ H) as [l ->]. apply in_or_app. auto.
+Qed.
+
+Lemma in_tl : forall (A : Type) (x : A) l, In x (tl l) -> In x l.
+Proof. intros A x [|y l]; simpl; auto. Qed.
+
+Lemma in_remove' : forall (l : list nat) x y, In x (remove Nat.eq_dec y l) <-> In x l /\ x <> y.
+Proof.
+  intros. split.
+  - intros H. apply in_remove in H. auto.
+  - intros [H1 H2]. apply in_in_remove; auto.
+Qed.
